@@ -192,10 +192,11 @@ class Scratch:
         path = os.path.join(self.repo, rel)
         if not os.path.exists(path):
             raise AnchorLost(f"{rel} does not exist")
-        line = f'\n#[cfg(kani)] #[path = "{VERIF}/contracts/kani/{modfile}"] mod verif_kani;\n'
+        stem = re.sub(r"[^A-Za-z0-9_]", "_", os.path.splitext(modfile)[0])
+        line = f'\n#[cfg(kani)] #[path = "{VERIF}/contracts/kani/{modfile}"] mod verif_kani_{stem};\n'
         with open(path, "a") as f:
             f.write(line)
-        self.overlay_log.append(f"{rel}: appended `#[cfg(kani)] #[path=contracts/kani/{modfile}] mod verif_kani;`")
+        self.overlay_log.append(f"{rel}: appended `#[cfg(kani)] #[path=contracts/kani/{modfile}] mod verif_kani_{stem};`")
 
     def apply_edit(self, rel, old, new, count=1):
         """Used only for sanity mutants (thorough tier) on a scratch copy."""
@@ -487,7 +488,7 @@ def build_verus_file(unit, root=None):
                 raise AnchorLost(f"slice statement /{it['stmt']}/ not found in {it['name']}")
             stmt = verus_clean(m.group(0) + "\n")
             c = it["contract"]
-            fn = (f"fn {it['name']}({it['params']}) -> (r: {it['ret']})\n"
+            fn = (f"fn {it['name']}{it.get('generics', '')}({it['params']}) -> (r: {it['ret']})\n"
                   + ("    requires " + ", ".join(c["requires"]) + ",\n" if c.get("requires") else "")
                   + "    ensures " + ",\n        ".join(c["ensures"]) + ",\n{\n    " + stmt.strip() + "\n    " + it["result"] + "\n}\n")
             start_line = cur.count("\n") + 1
